@@ -142,6 +142,13 @@ Section Cmd.
     (do ks <- sort_keys st (st_cites st); Ok (set_cites st (map snd (stable_sort ks)))).
   Proof. reflexivity. Qed.
 
+  Lemma run_read_lemma fuel st : run_command fmt_name cw fuel st (Cmd nm_read []) =
+    match st_reads st with
+    | [] => Unmodelled
+    | d :: more => Ok (add_warn (set_cites (set_db st (Some d) more) (r_cites d)) (repeat WRead (r_warnings d)))
+    end.
+  Proof. reflexivity. Qed.
+
   (* SORT: the citation list becomes the stable sort of itself by sort.key$ *)
   Lemma command_sort_spec fuel st st' : run_command fmt_name cw fuel st (Cmd nm_sort []) = Ok st' ->
     exists ks, sort_keys st (st_cites st) = Ok ks /\ map snd ks = st_cites st /\
